@@ -163,7 +163,7 @@ func (w *webTransport) send(packets []*packet.Packet) {
 					}
 					return
 				}
-				return
+				continue
 
 			}
 		}
